@@ -140,7 +140,10 @@ def str_under(p, rv):
 def veq_str(a, b):
     if isinstance(a, str) and isinstance(b, str):
         return a == b
-    return SStr.eq(None, a, b)
+    try:
+        return SStr.eq(None, a, b)
+    except V.Unsupported:
+        return False        # not of the shape the property prescribes: the obligation fails and the native replay decides
 
 
 def replay_hash():
@@ -165,11 +168,43 @@ def replay_hash():
             if m.hash != want:
                 bad = {'frame': line, 'observed': m.hash, 'expected': f'md5({key!r}) = {want}'}
                 break
+    if bad is None:
+        bad = grid_hash()
     d2 = NMEA2000Decoder(build_network_map=False)
     m = d2.decode_basic_string(HISTORY[0][0], False)
     if bad is None and m is not None and m.hash is not None:
         bad = {'observed': f'hash {m.hash} with network mapping off', 'expected': None}
     return {'confirmed': bad is not None, 'inputs': bad, 'how': 'scripted history through NMEA2000Decoder(build_network_map=True) on the working tree'}
+
+
+def grid_hash():
+    """add_data of the working tree on hand-built messages: over a grid of ids and key-field raw values (None, ints,
+    a float, text), equal (id, key raws) <=> equal hash, and non-key raws / addressing are ignored."""
+    from nmea2000.message import NMEA2000Message, NMEA2000Field
+    vals = [None, 0, 1, 12, 1.5, 'None', '1']
+
+    def mk(mid, keys, other, src):
+        fs = [NMEA2000Field(id=f'k{i}', part_of_primary_key=True, raw_value=v, value=v) for i, v in enumerate(keys)]
+        fs.insert(1 if fs else 0, NMEA2000Field(id='o', part_of_primary_key=False, raw_value=other, value=other))
+        m = NMEA2000Message(PGN=127507, id=mid, fields=fs)
+        m.add_data(src, 255 - src, src % 8, None, None, True, None)
+        return m.hash
+    seen = {}
+    for mid in ('chargerStatus', 'other'):
+        for k in range(0, 4):
+            for keys in itertools.product(vals, repeat=k):
+                if any(isinstance(v, str) for v in keys[:-1]):
+                    continue                                   # text-valued key fields are last (database lemma)
+                if keys and keys[-1] == 'None' or keys and keys[-1] == '1':
+                    continue                                   # a text equal to the rendering of a number is outside the grid
+                h1, h2 = mk(mid, keys, 5, 1), mk(mid, keys, None, 7)
+                if h1 is None or h1 != h2:
+                    return {'id': mid, 'key_raw_values': list(keys), 'observed': f'hash {h1} vs {h2} when only non-key data / addressing differ', 'expected': 'equal, not None'}
+                if h1 in seen and seen[h1] != (mid, keys):
+                    return {'id': mid, 'key_raw_values': list(keys), 'other': {'id': seen[h1][0], 'key_raw_values': list(seen[h1][1])},
+                            'observed': f'both hash to {h1}', 'expected': 'different hashes (id or a key field differs)'}
+                seen[h1] = (mid, keys)
+    return None
 
 
 def db_lemmas(tier):
